@@ -137,6 +137,21 @@ def run(ctx):
         r5.instance({"wrapper": w, "calls": callees, "argument_passed_unchanged": arg_ok}, ok)
         if not ok:
             r5.violate("C17|R5|%s" % w, "%s is no longer a thin wrapper over %s (calls %s; argument unchanged: %s): text is rewritten before / after the dependency sees it, so what the encoder produced is not what the decoder gets" % (w, target, callees, arg_ok), fn.file, fn.span["line"], w)
+    # the query of a request target is found by the URL parser (which knows about '#', the first '?', ..), not by the wrapper
+    SPLITTERS = re.compile(r"core::str::<impl str>::(split_once|rsplit_once|split|rsplit|splitn|rsplitn|find|rfind|strip_prefix|strip_suffix|split_at|get)|.*::index")
+    for qn in ("request::Request::get_uri_query", "request::Request::get_query"):
+        qf = F.fns.get(qn)
+        if qf is None:
+            r5.violate("C17|R5|anchor-missing|%s" % qn, "%s not found" % qn)
+            continue
+        qf = ctx.inl(qf)
+        calls = [callee_name(t) or "" for _, t in qf.calls()]
+        own = [c for c in calls if SPLITTERS.fullmatch(c) or (REWRITERS.fullmatch(c) and not c.endswith("::to_string"))]
+        via_parser = any(c in ("url::URL::parse", "url_build_parse::parse_url", "request::Request::get_uri_query", "url::URL::parse_query") for c in calls)
+        ok = via_parser and not own
+        r5.instance({"wrapper": qn, "delegates_to_url_parser": via_parser, "own_string_surgery": own}, ok)
+        if not ok:
+            r5.violate("C17|R5|%s" % qn, "%s %s: the query handed to the decoder is no longer the one the URL parser delimits (first '?', up to '#')" % (qn, ("cuts the target itself with " + ", ".join(sorted(set(own)))) if own else "does not go through the URL parser"), qf.file, qf.span["line"], qn)
     fp = F.fns.get("body::form_urlencoded::FormUrlEncoded::parse")
     if fp is not None:
         bad = []
